@@ -1,7 +1,7 @@
 (* C19: editing a CIF document through the DOM API keeps it rectangular and predictable.
    Statements over the reference model coq/Dom/Dom.v (tied to gemmi by harness/h_dom.cpp + extract/dom_drv.ml). *)
 From Coq Require Import ZArith List Bool.
-From GV Require Import Base.Str Dom.Dom Dom.DomProofs Dom.DomSafe.
+From GV Require Import Base.Str Dom.Dom Dom.DomProofs Dom.DomSafe Dom.DomRefine.
 Import ListNotations.
 
 (* Every operation -- accepted, rejected with an exception, with any arguments -- keeps every loop of
@@ -101,3 +101,10 @@ Theorem C19_no_undefined_behaviour_partial : forall d o,
   op_no_dup_hazard o = true -> s_st (step d o) <> SUB.
 Proof. exact step_no_ub. Qed.
 Print Assumptions C19_no_undefined_behaviour_partial.
+
+(* Refinement: the in-place copy loop of vector_remove_column, as an index-level array program that
+   reads and writes ONE array, computes the list-level specification used by the model (no element is
+   read after it was overwritten: the write cursor stays strictly below the read cursor). *)
+Theorem C19_remove_column_refines : forall nw pos a, remove_column_prog nw pos a = remove_col nw pos a.
+Proof. exact remove_column_refines. Qed.
+Print Assumptions C19_remove_column_refines.
